@@ -5,11 +5,10 @@ from vlib import *
 ID = "C15"
 COQ_FILES = ["Common/Corr.v", "Model/Resolve.v", "Model/ProtocLookup.v", "Proofs/Resolve.v", "Props/C15.v"]
 PROPS = "Props/C15.v"
-THEOREMS = ["C15_create_prefix_list_spec", "C15_resolve_absolute", "C15_lookup_total",
-            "C15_repaired_resolve_eq_protoc", "C15_patched_resolve_eq_protoc", "C15_resolve_eq_protoc_partial", "C15_resolve_eq_protoc_refuted",
-            "C15_double_dot_diverges"]
+THEOREMS = ["C15_create_prefix_list_spec", "C15_resolve_eq_protoc", "C15_resolve_absolute", "C15_lookup_total",
+            "C15_old_resolve_refuted", "C15_double_dot_diverges"]
 AXIOMS_OK = []
-TRUSTED = ["hand-written Gallina mirror of linker/resolve.go (resolve, fileScope, messageScope, resolveElementRelative, "
+TRUSTED = ["hand-written Gallina mirror of linker/resolve.go after fixes/C15-resolve-scope.diff (resolve, fileScope with skipNonTypes, messageScope, resolveElementRelative, "
            "resolveElementInFile, matchesPkgNamespace, resolveElement) and internal.CreatePrefixList",
            "Coq transcription of protoc's DescriptorBuilder::LookupSymbolNoPlaceholder / FindSymbol / IsInPackage (Model/ProtocLookup.v); "
            "protoc itself is not available",
